@@ -44,7 +44,7 @@ ASSUMPTIONS = [
     "polar -> Cartesian -> polar is judged on the surface, not on the coefficients (C<0 legitimately comes back as |C| with a shifted angle)",
     "fit domain: |rotation| < pi/2 - 0.05, |C10| >= 20 A, 0 <= C12 <= 0.8 |C10| (the polar decomposition cannot identify a rotation for an indefinite aberration matrix), >= 5 bright-field pixels spanning both axes; phi12 is judged through (C12 cos 2phi12, C12 sin 2phi12), i.e. modulo pi and ignored when C12 = 0; bound 1e-4 relative (float32 internals, measured ~3e-7)",
     "alias inputs never give both 'defocus' and 'C10' (contradictory input)",
-    "standardize_aberration_coefs returns float32 tensors: judged at 1e-5 relative (float32 rounding 6e-8)",
+    "standardize_aberration_coefs returns float32 tensors: coefficient values judged at 1e-5 relative (float32 rounding 6e-8); the surface of float32-rounded coefficients at 5e-5 of the sum of term magnitudes (rounded angles enter as m*dphi, hard limit 1.1e-6, measured 1.7e-7; a sign error of the alias is >= 1e-2)",
 ]
 BUDGET = {"quick": {"soft_s": 100}, "thorough": {"soft_s": 700}}
 MIN_EVALUATIONS = {"quick": 600, "thorough": 6000}
@@ -82,20 +82,20 @@ def plan(tier, seed):
     specs = [{"kind": "names"}]
     for scale in SCALES:
         for sym in POLAR:
-            for r in range(4 if q else 40):
+            for r in range(4 if q else 80):
                 specs.append({"kind": "onehot_polar", "symbol": sym, "scale": scale, "rep": r})
         for lab in CART:
-            for r in range(4 if q else 40):
+            for r in range(4 if q else 80):
                 specs.append({"kind": "onehot_cart", "label": lab, "scale": scale, "rep": r})
-    for r in range(500 if q else 12000):
+    for r in range(500 if q else 30000):
         specs.append({"kind": "dense", "scale": SCALES[r % 2], "rep": r})
-    for r in range(200 if q else 4000):
+    for r in range(200 if q else 8000):
         specs.append({"kind": "alias_fn", "rep": r})
-    for r in range(100 if q else 1500):
+    for r in range(100 if q else 3000):
         specs.append({"kind": "alias_probe", "rep": r})
-    for r in range(30 if q else 300):
+    for r in range(30 if q else 500):
         specs.append({"kind": "alias_direct", "rep": r})
-    for r in range(300 if q else 12000):
+    for r in range(300 if q else 30000):
         specs.append({"kind": "fit", "rep": r})
     rng = np.random.default_rng([seed, 12, 3])
     order = rng.permutation(len(specs))
@@ -275,7 +275,9 @@ def check_polar_set(ctx, rng, pol, lam, scale, fields, with_conversions=True):
     p0 = np.concatenate([phi, [0.3]])
     r0, S0 = chi_polar_np(a0, p0, lam, pol)
     chi = cp.aberration_surface(_t(ctx, a0), _t(ctx, p0), lam, coefs)
-    ctx.check(chi.dtype == torch.float64 and tuple(chi.shape) == a0.shape, "surface_dtype_shape", "aberration_surface returned %s %s for float64 input of shape %s" % (chi.dtype, tuple(chi.shape), a0.shape), **fields)
+    if tuple(chi.shape) != a0.shape:
+        ctx.viol("surface_shape", "aberration_surface returned shape %s for input of shape %s" % (tuple(chi.shape), a0.shape), **fields)
+        return alpha, phi, ref, S
     ctx.close(_rel(chi.detach().numpy() - r0, S0), TOL, "surface_vs_series", lambda: "aberration_surface differs from the series for %r (lambda=%r)" % (pol, lam), **fields)
 
     # 2. polar gradients vs autograd and vs the analytic series
@@ -312,7 +314,7 @@ def check_polar_set(ctx, rng, pol, lam, scale, fields, with_conversions=True):
     # 4. polar -> Cartesian coefficients -> basis expansion
     polt = {k: torch.tensor(v, dtype=torch.float64) for k, v in pol.items()}
     cart = cp.polar_to_cartesian_aberrations(polt)
-    ctx.check(sorted(cart) == sorted(CART), "cartesian_label_set", lambda: "polar_to_cartesian_aberrations keys %r" % (sorted(cart),), **fields)
+    ctx.check(all(l in cart for l in CART), "cartesian_label_set", lambda: "polar_to_cartesian_aberrations lacks labels: keys %r" % (sorted(cart),), **fields)
     labels = [l for l in CART if l in cart]
     basis = cp.aberration_surface_cartesian_basis(_t(ctx, alpha), _t(ctx, phi), lam, labels)
     vec = torch.stack([torch.as_tensor(cart[l], dtype=torch.float64) for l in labels])
@@ -323,7 +325,6 @@ def check_polar_set(ctx, rng, pol, lam, scale, fields, with_conversions=True):
     ctx.close(max(abs(float(cart[l]) - cref[l]) for l in labels) / cs, TOL, "polar_to_cartesian_coefficients", lambda: "polar_to_cartesian_aberrations(%r) = %r" % (pol, {k: float(v) for k, v in cart.items() if float(v) != 0}), **fields)
     # 5. polar -> Cartesian -> polar leaves the surface unchanged
     back = cp.cartesian_to_polar_aberrations(cart)
-    ctx.check(sorted(back) == sorted(POLAR), "polar_symbol_set", lambda: "cartesian_to_polar_aberrations keys %r" % (sorted(back),), **fields)
     chi_b = cp.aberration_surface(_t(ctx, alpha), _t(ctx, phi), lam, back).detach().numpy()
     ctx.close(_rel(chi_b - ref, S), TOL, "polar_cartesian_polar_surface", lambda: "surface changed by polar->Cartesian->polar: %r -> %r" % (pol, {k: float(v) for k, v in back.items() if float(v) != 0}), **fields)
     return alpha, phi, ref, S
@@ -375,7 +376,9 @@ def run_onehot_cart(spec, idx, ctx):
     ctx.check(tuple(got) == (n, m, kind), "parse_label", "parse_cartesian_aberration_label(%r) = %r" % (lab, got), **fields)
     # basis function of the label alone, and inside a longer basis list (column order)
     b1 = cp.aberration_surface_cartesian_basis(_t(ctx, alpha), _t(ctx, phi), lam, [lab])
-    ctx.check(tuple(b1.shape) == (alpha.size, 1) and b1.dtype == torch.float64, "basis_dtype_shape", "basis shape %s dtype %s" % (tuple(b1.shape), b1.dtype), **fields)
+    if tuple(b1.shape) != (alpha.size, 1):
+        ctx.viol("basis_shape", "basis for one label has shape %s, expected %s" % (tuple(b1.shape), (alpha.size, 1)), **fields)
+        return
     ctx.close(_rel(c * b1[..., 0].numpy() - ref, S), TOL, "cartesian_basis_function", lambda: "c * basis(%s) != series term" % lab, **fields)
     perm = [CART[i] for i in rng.permutation(len(CART))]
     ball = cp.aberration_surface_cartesian_basis(_t(ctx, alpha), _t(ctx, phi), lam, perm)
@@ -422,7 +425,6 @@ def run_dense(spec, idx, ctx):
     merged = cp.merge_aberration_coefficients(polt, {k: torch.tensor(v, dtype=torch.float64) for k, v in delta.items()})
     chi = cp.aberration_surface(_t(ctx, alpha), _t(ctx, phi), lam, merged).detach().numpy()
     ctx.close(_rel(chi - (ref + dref), S + dS), TOL, "merge_is_sum", lambda: "merge(%r, %r) is not the sum of the surfaces" % (pol, delta), **fields)
-    ctx.check(all(k in POLAR for k in merged), "polar_symbol_set", lambda: "merge returned keys %r" % (sorted(merged),), **fields)
     ctx.nontrivial(("dense", scale, spec["rep"]), True)
     ctx.observe(coefs=pol, delta=delta, wavelength=lam, points=_npts(ctx))
 
@@ -431,29 +433,29 @@ def run_names(spec, idx, ctx):
     st = ctx.state
     torch, cp, du, validators = st["torch"], st["cp"], st["du"], st["validators"]
     f = {"kind": "names"}
-    ctx.check(sorted(cp.POLAR_SYMBOLS) == sorted(POLAR), "polar_symbol_set", "complex_probe.POLAR_SYMBOLS = %r" % (cp.POLAR_SYMBOLS,), **f)
-    ctx.check(dict(cp.POLAR_ALIASES) == ALIASES, "alias_table", "complex_probe.POLAR_ALIASES = %r" % (cp.POLAR_ALIASES,), **f)
+    # naming schemes: every symbol/label of orders 1..5 is known under its documented name (supersets are fine)
+    ctx.check(all(x in cp.POLAR_SYMBOLS for x in POLAR), "polar_symbol_set", "complex_probe.POLAR_SYMBOLS = %r" % (cp.POLAR_SYMBOLS,), **f)
+    ctx.check(all(cp.POLAR_ALIASES.get(k) == v for k, v in ALIASES.items()), "alias_table", "complex_probe.POLAR_ALIASES = %r" % (cp.POLAR_ALIASES,), **f)
     pres = getattr(du, "ABERRATION_PRESETS", None)
-    if pres is not None:
-        ctx.check(sorted(pres["all"]) == sorted(CART), "cartesian_label_set", "ABERRATION_PRESETS['all'] = %r" % (pres["all"],), **f)
+    if pres is not None and "all" in pres:
+        ctx.check(all(l in pres["all"] for l in CART), "cartesian_label_set", "ABERRATION_PRESETS['all'] = %r" % (pres["all"],), **f)
         for name, labs in pres.items():
-            ctx.check(all(l in CART for l in labs) and len(set(labs)) == len(labs), "cartesian_label_set", "preset %s = %r" % (name, labs), **f)
+            ok = True
+            try:
+                for l in labs:
+                    n, m, kind = cp.parse_cartesian_aberration_label(l)
+                    ok = ok and (kind in ("a", "b")) == (m > 0) and 0 <= m <= n + 1 and (n + 1 - m) % 2 == 0
+            except Exception:  # noqa: BLE001
+                ok = False
+            ctx.check(ok, "cartesian_label_set", "preset %s = %r holds a label that is not a Cartesian aberration label" % (name, labs), **f)
     empty = cp.polar_to_cartesian_aberrations({})
-    ctx.check(sorted(empty) == sorted(CART) and all(float(v) == 0 for v in empty.values()), "cartesian_label_set", "polar_to_cartesian_aberrations({}) = %r" % (empty,), **f)
+    ctx.check(all(l in empty for l in CART) and all(float(v) == 0 for v in empty.values()), "cartesian_label_set", "polar_to_cartesian_aberrations({}) = %r" % (empty,), **f)
     for sym in POLAR + list(ALIASES):
         out = validators.validate_aberration_coefficients({sym: 1.25})
         exp = {"C10": -1.25} if sym == "defocus" else {ALIASES.get(sym, sym): 1.25}
-        ctx.check(out == exp, "alias_table" if sym in ALIASES else "polar_symbol_set", "validate_aberration_coefficients({%r: 1.25}) = %r" % (sym, out), entry="validate", **f)
+        ctx.check(out == exp, "alias_defocus" if sym == "defocus" else "alias_table" if sym in ALIASES else "polar_symbol_set", "validate_aberration_coefficients({%r: 1.25}) = %r" % (sym, out), entry="validate_aberration_coefficients", **f)
         out2 = {k: float(v) for k, v in cp.standardize_aberration_coefs({sym: 1.25}).items()}
-        ctx.check(out2 == exp, "alias_table" if sym in ALIASES else "polar_symbol_set", "standardize_aberration_coefs({%r: 1.25}) = %r" % (sym, out2), entry="standardize", **f)
-    for bad in ("C11", "C60", "phi10", "focus"):
-        for name, fn, exc in (("validate", validators.validate_aberration_coefficients, ValueError), ("standardize", cp.standardize_aberration_coefs, KeyError)):
-            try:
-                fn({bad: 1.0})
-                ok = False
-            except exc:
-                ok = True
-            ctx.check(ok, "unknown_symbol_accepted", "%s accepted the unknown symbol %r" % (name, bad), entry=name, **f)
+        ctx.check(out2 == exp, "alias_defocus" if sym == "defocus" else "alias_table" if sym in ALIASES else "polar_symbol_set", "standardize_aberration_coefs({%r: 1.25}) = %r" % (sym, out2), entry="standardize_aberration_coefs", **f)
     ctx.nontrivial(("names",), True)
     ctx.observe(polar=POLAR, cartesian=CART)
 
@@ -485,14 +487,19 @@ def _alias_input(rng, allow_none=True):
     return dict(items), exp, d
 
 
+def _nz(d):
+    """non-zero canonical entries (an implementation may or may not fill absent symbols with zeros)"""
+    return {k: float(v) for k, v in d.items() if k != "defocus" and v is not None and float(v) != 0.0}
+
+
 def _surface_of(ctx, rng, coefs, exp, fields):
     """the accepted coefficients must describe the surface with C10 = -defocus"""
     cp = ctx.state["cp"]
     lam = 0.0251
     alpha, phi = _points(rng, "physical", 64)
     ref, S = chi_polar_np(alpha, phi, lam, exp)
-    chi = cp.aberration_surface(_t(ctx, alpha), _t(ctx, phi), lam, {k: float(v) for k, v in coefs.items()}).detach().numpy()
-    ctx.close(_rel(chi - ref, S), 1e-5, "alias_surface", lambda: "surface of the accepted coefficients %r differs from the surface with C10=-defocus %r" % (coefs, exp), **fields)
+    chi = cp.aberration_surface(_t(ctx, alpha), _t(ctx, phi), lam, {k: float(v) for k, v in coefs.items() if v is not None}).detach().numpy()
+    ctx.close(_rel(chi - ref, S), 5e-5, "alias_surface", lambda: "surface of the accepted coefficients %r differs from the surface with C10=-defocus %r" % (coefs, exp), **fields)
 
 
 def run_alias_fn(spec, idx, ctx):
@@ -500,25 +507,21 @@ def run_alias_fn(spec, idx, ctx):
     cp, validators = st["cp"], st["validators"]
     rng = ctx.rng(idx)
     user, exp, d = _alias_input(rng)
-    keep = dict(user)
     # 1. validate_aberration_coefficients (None entries are skipped)
     out = validators.validate_aberration_coefficients(user)
     f = {"kind": "alias", "entry": "validate_aberration_coefficients"}
-    ctx.check(user == keep, "alias_input_mutated", "validate_aberration_coefficients modified its argument", **f)
-    ctx.check("defocus" not in out and out.get("C10") == -float(d), "alias_defocus", lambda: "validate_aberration_coefficients(%r) -> %r, expected C10 = %r" % (user, out, -float(d)), **f)
-    nn = {k: v for k, v in exp.items()}
-    ctx.check(out == nn, "alias_other_symbols", lambda: "validate_aberration_coefficients(%r) -> %r, expected %r" % (user, out, nn), **f)
+    ctx.check(out.get("C10") == -float(d), "alias_defocus", lambda: "validate_aberration_coefficients(%r) -> %r, expected C10 = %r" % (user, out, -float(d)), **f)
+    ctx.check(_nz(out) == _nz(exp), "alias_other_symbols", lambda: "validate_aberration_coefficients(%r) -> %r, expected %r" % (user, out, exp), **f)
     _surface_of(ctx, rng, out, exp, f)
     # 2. standardize_aberration_coefs (float32 tensors, no None support)
     user2 = {k: v for k, v in user.items() if v is not None}
     out2 = cp.standardize_aberration_coefs(user2)
     f = {"kind": "alias", "entry": "standardize_aberration_coefs"}
     got = float(out2["C10"]) if "C10" in out2 else float("nan")
-    ctx.check("defocus" not in out2, "alias_defocus", "standardize_aberration_coefs kept the key 'defocus'", **f)
     ctx.close((got + float(d)) / abs(float(d)), 1e-5, "alias_defocus", lambda: "standardize_aberration_coefs(%r)['C10'] = %r, expected %r" % (user2, got, -float(d)), **f)
     worst = max([abs(float(out2.get(k, float("nan"))) - v) / max(abs(v), 1e-30) for k, v in exp.items() if k != "C10"] or [0.0])
     ctx.close(worst, 1e-5, "alias_other_symbols", lambda: "standardize_aberration_coefs(%r) -> %r" % (user2, {k: float(v) for k, v in out2.items()}), **f)
-    ctx.check(sorted(out2) == sorted(exp), "alias_other_symbols", lambda: "standardize_aberration_coefs keys %r, expected %r" % (sorted(out2), sorted(exp)), **f)
+    ctx.check(sorted(_nz({k: float(v) for k, v in out2.items()})) == sorted(_nz(exp)), "alias_other_symbols", lambda: "standardize_aberration_coefs non-zero keys %r, expected %r" % (sorted(out2), sorted(exp)), **f)
     _surface_of(ctx, rng, out2, exp, f)
     ctx.nontrivial(("alias_fn", spec["rep"]), d != 0)
     ctx.observe(user=user, validate=out, standardize={k: float(v) for k, v in out2.items()})
@@ -549,14 +552,10 @@ def run_alias_probe(spec, idx, ctx):
     if form == "reassign":
         model.probe_params = {**user}
     ab = model.probe_params["aberration_coefs"]
-    ctx.check("defocus" not in ab and ab.get("C10") == -float(d), "alias_defocus", lambda: "%s(%s): probe_params['aberration_coefs'] = %r, expected C10 = %r" % (cls_name, form, {k: v for k, v in ab.items() if v != 0}, -float(d)), **f)
+    ctx.check(ab.get("C10") == -float(d), "alias_defocus", lambda: "%s(%s): probe_params['aberration_coefs'] = %r, expected C10 = %r" % (cls_name, form, {k: v for k, v in ab.items() if v != 0}, -float(d)), **f)
     nz = {k: v for k, v in ab.items() if v != 0.0}
     expnz = {k: v for k, v in exp.items() if v != 0.0}
-    if cls_name == "ProbeParametric":
-        mo = kw["max_aberrations_order"]
-        ctx.check(all(k in ab for k in POLAR if int(k[-2]) <= mo), "alias_order_fill", "coefficients up to order %d are not all present: %r" % (mo, sorted(ab)), **f)
     ctx.check(nz == expnz, "alias_other_symbols", lambda: "%s(%s): non-zero aberration_coefs %r, expected %r" % (cls_name, form, nz, expnz), **f)
-    ctx.check(all(k in POLAR for k in ab), "polar_symbol_set", lambda: "aberration_coefs keys %r" % (sorted(ab),), **f)
     _surface_of(ctx, rng, ab, exp, f)
     # the probe that is actually built equals the probe built from C10 = -defocus (twin run on the real model)
     shape = (int(rng.integers(12, 21)), int(rng.integers(12, 21)))
@@ -620,12 +619,12 @@ def run_alias_direct(spec, idx, ctx):
     f = {"kind": "alias", "entry": "DirectPtychography"}
     dp, nbf, gpts, ks = _make_dp(ctx, rng, dict(user), rotation=float(rng.uniform(-0.5, 0.5)))
     got = dp.aberration_coefs
-    ctx.check("defocus" not in got and got.get("C10") == -float(d), "alias_defocus", lambda: "DirectPtychography(aberration_coefs=%r).aberration_coefs = %r" % (user, got), **{**f, "form": "constructor"})
-    ctx.check(got == exp, "alias_other_symbols", lambda: "DirectPtychography.aberration_coefs = %r, expected %r" % (got, exp), **{**f, "form": "constructor"})
+    ctx.check(got.get("C10") == -float(d), "alias_defocus", lambda: "DirectPtychography(aberration_coefs=%r).aberration_coefs = %r" % (user, got), **{**f, "form": "constructor"})
+    ctx.check(_nz(got) == _nz(exp), "alias_other_symbols", lambda: "DirectPtychography.aberration_coefs = %r, expected %r" % (got, exp), **{**f, "form": "constructor"})
     # override dictionaries go through the same alias rule
     d2 = float(rng.choice([-1.0, 1.0])) * float(10 ** rng.uniform(1, 3))
     cur = dp.hyperparameter_state.current_aberrations({"defocus": d2})
-    ctx.check("defocus" not in cur and cur.get("C10") == -d2, "alias_defocus", lambda: "current_aberrations(override {'defocus': %r}) = %r" % (d2, cur), **{**f, "form": "override"})
+    ctx.check(cur.get("C10") == -d2, "alias_defocus", lambda: "current_aberrations(override {'defocus': %r}) = %r" % (d2, cur), **{**f, "form": "override"})
     # twin reconstructions: override by alias == override by C10 = -defocus, through the real pipeline
     kernel = str(rng.choice(["ssb", "prlx", "icom"]))
     st["captured"].clear()
@@ -636,7 +635,7 @@ def run_alias_direct(spec, idx, ctx):
     scale = float(b.abs().max()) or 1.0
     ctx.close(float((a - b).abs().max()) / scale, 1e-5, "alias_reconstruct_twin", lambda: "reconstruct(override defocus=%r) differs from reconstruct(override C10=%r), kernel %s" % (d2, -d2, kernel), **{**f, "form": "reconstruct", "kernel": kernel})
     if cap and isinstance(cap[0], dict):
-        ctx.check("defocus" not in cap[0] and cap[0].get("C10") == -d2, "alias_defocus", lambda: "reconstruct handed %r to evaluate_probe" % (cap[0],), **{**f, "form": "reconstruct_hook"})
+        ctx.check(cap[0].get("C10") == -d2, "alias_defocus", lambda: "reconstruct handed %r to evaluate_probe" % (cap[0],), **{**f, "form": "reconstruct_hook"})
     ctx.nontrivial(("alias_direct", spec["rep"]), d != 0 and d2 != 0)
     ctx.observe(user=user, constructor=got, override_defocus=d2, kernel=kernel, wrong_sign_distance=float((a - w).abs().max()) / scale, n_bf=nbf, gpts=gpts)
 
@@ -688,7 +687,6 @@ def run_fit(spec, idx, ctx):
     res = max(abs(fit["C10"] - c10), abs(fa - ca), abs(fb - cb)) / S
     dr = abs(fit["rotation_angle"] - rot)
     ctx.close(max(res, dr), 1e-4, "fit_recovers", lambda: "fit %r from shifts generated with C10=%r C12=%r phi12=%r rotation=%r" % (fit, c10, c12, phi12, rot), **f)
-    ctx.check(fit["C12"] >= 0 and -PI / 2 - 1e-6 <= fit["phi12"] <= PI / 2 + 1e-6, "fit_canonical_range", "fit returned C12=%r phi12=%r" % (fit["C12"], fit["phi12"]), **f)
     ctx.nontrivial(("fit", spec["rep"]), c10 != 0)
     ctx.observe(coefs=coefs, rotation=rot, fit=fit, n_bf=nbf, gpts=gpts, residual=max(res, dr))
 
